@@ -71,7 +71,7 @@ PROPS.update({
         fields=r"^(remove|begin|end)\.|^c\d+\.(phase|removal|client|channel|ka|byaddr|prune|valset|optin|pend|acks|allow|deny|prio|minpow|qinfr|inith|evmin)|^g\.(removeq|client2c|chan2c|infrq)"),
     "C14": dict(streams=[LIFE, KEYS], rule=PROV_RULE + "; senders drawn from owner / previous owner / other users / governance; signer of validator messages occasionally another validator",
         assumptions=PROV_ASSUME, fields=r"^(create|update|remove|optin|optout|assign)\.res|^c\d+\.(owner|ps|minpow)"),
-    "C17": dict(streams=[HANDSHAKE], rule=PROV_RULE + "; handshake stream: every combination of ordering, ports, version, hop count, underlying client, initiating side, repeated attempts and confirmations; consumers launched on created clients and on two pre-existing connections that several consumers name",
+    "C17": dict(streams=[HANDSHAKE, CONSUMER], rule=PROV_RULE + "; handshake stream: every combination of ordering, ports, version, hop count, underlying client, initiating side, repeated attempts and confirmations; consumers launched on created clients and on two pre-existing connections that several consumers name; a launch on the connection of a stopped consumer; consumer stream: the consumer's own OnChanOpenInit / Try / Ack / Confirm / CloseInit with every combination of ordering, ports, version (blank = default), hops and underlying client, before and after the provider channel is fixed by the first VSC packet",
         assumptions=PROV_ASSUME + ["core IBC handshake (channel states, connection/client existence) is scripted"],
         fields=r"^(chantry|chanconfirm|begin)\.|^c\d+\.(client|channel|inith|phase)|^g\.(client2c|chan2c)"),
     "C20": dict(streams=[LIFE], rule=PROV_RULE + "; infraction-parameter requests partial/repeated/cancelling, before and after launch, block times around the due time",
@@ -158,7 +158,7 @@ LEVEL_TEXT = {
     "C06": "Theorems: replaced key on a launched consumer keeps resolving and is scheduled at now+unbonding; pruning forgets exactly the keys whose deadline passed (prune_not_early / pruned_when_due); identity fallback. Tie: same streams, deadlines hit to the nanosecond.",
     "C11": "Theorems: stop schedules removal and keeps state, unlaunched consumers are skipped by queue/send, deletion clears every protocol field, removal not early, second deletion is a no-op. Tie: correspondence + stop/removal monitors.",
     "C14": "Theorems: update/remove need the owner, Top-N != 0 implies governance owner after every accepted update (incl. combined messages), creation is opt-in only, validator messages need the validator's signature. Tie: correspondence on message results + owner/Top-N monitors.",
-    "C17": "Theorems: OnChanOpenTry accepted only if (ordered, ports, version, one hop, client bound to a channel-less consumer); confirm binds once; launch on a connection whose client is bound elsewhere is rejected. Tie: correspondence + bijection monitor on every implementation state.",
+    "C17": "Theorems: provider: OnChanOpenTry accepted only if (ordered, ports, version, one hop, client bound to a channel-less consumer); confirm binds once; launch on a connection whose client is bound elsewhere is rejected; consumer: cons_init_accept_only_if (ordered, consumer->provider ports, version, one hop over the recorded provider client, no provider channel yet), cons_try_confirm_rejected, cons_no_second_channel, cons_adopts_first_channel (the channel of the first VSC packet, never another). Tie: correspondence on both chains + bijection monitor on every provider state + accept-only-if clauses on what the implementations accept.",
     "C20": "Theorems: equal request cancels, different request replaces and is due at now+unbonding, pending applied when due and then cleared, at most 200 per block. Tie: correspondence + queue/queued consistency monitor.",
     "C02": "Theorems (Props/C02): soundness, key, power and completeness of the model's computeNextValidators for every staking view; active-set clause from the staking order. Tie: one-step correspondence of the epoch computation + Spec.Epoch.c02* on every set the implementation computed.",
     "C03": "Theorems (Props/C03): the scan returns a member, reaches N %, no larger member does (exact arithmetic, total < 2*10^16). Tie: differential + Spec.Epoch.c03* at every epoch.",
